@@ -15,11 +15,12 @@ package cidprimary
 //@ func (cp *CIDPrimary) flushBlock(key []byte, value []byte) (work types.Work, err error)  property C16
 //@   holds cp.flushLock
 
-//@ func Open(path string) (cp *CIDPrimary, err error)
-//@   trusted constructor: opens the single primary file
+//@ func Open(path string) (cp *CIDPrimary, err error)  property C17
 //@   fresh cp
-//@   ensures err == nil ==> cp != nil && !as(primary.PrimaryStorage, cp).$pending && !as(primary.PrimaryStorage, cp).$closed
-//@   ensures err != nil ==> cp == nil
+//@   abstract gap GAP-2: pools+file implement the ghost primary records
+//@   abstract ensures err == nil ==> !as(primary.PrimaryStorage, cp).$pending && !as(primary.PrimaryStorage, cp).$closed
+//@   ensures @opened err == nil ==> cp != nil && inv(cp) && cp.file.$open && len(cp.nextPool.blocks) == 0 && len(cp.curPool.blocks) == 0
+//@   ensures @failed err != nil ==> cp == nil
 
 // Layer B (C01): the CID primary's pools. A record handed to Put is returned by Get from the
 // pool with exactly the key and value that were put (including nil and empty values, F3); the
